@@ -65,6 +65,8 @@ def plan_c19(res, tier, seed, only):
              "c19_parse_square", "c19_parse_move"]
     qs = [H("c19", n, timeout=900, mem_gb=8) for n in names]
     engine.run_plan(res, filt(qs, only), workers=8)
+    import e2
+    e2.run_c19(res)
     return RULE
 
 
@@ -94,3 +96,434 @@ def replay(prop, path):
             print("VIOLATION property=%s replay=%s" % (prop, path))
         return r.returncode
     return 2
+
+
+# ---------------------------------------------------------------------------- board-level rules
+HARNESS_CODE = (r"src/(refm|sym|brd|stubs|util|c\d\d)\.rs", 70, "harness/reference code: constant trip counts (<= 64), loops end on their own")
+
+
+def board_rules(a=16, full_n=None):
+    """Loop bounds for board-level harnesses with a single-square mask. Every bound is derived from the
+    code and checked by unwinding assertions."""
+    one = 2 if full_n is None else full_n + 1
+    return [
+        HARNESS_CODE,
+        (r"core/src/array/", 9, "array::map over <= 8 elements (raw board constructor hook)"),
+        (r"add_pawn_legals", 3 if full_n is None else full_n + 1, "single-origin mask: each pawn loop runs <= 1 time, the en-passant loop <= 2 (two attackers of a square)"),
+        (r"add_knight_legals|add_slider_legals", one, "single-origin mask: <= 1 piece"),
+        (r"add_king_legals", 9, "king has <= 8 neighbours"),
+        (r"can_castle", 7, "king path (between + destination) has <= 6 squares"),
+        (r"piece_on", 7, "6 piece kinds"),
+        (r"play_unchecked|null_move|calculate_checkers_and_pins", a + 1, "sliders aligned with a king: bounded by the assumption of the harness (<= %d)" % a),
+        (r"effective_ep", 3, "<= 2 pawn-attack squares"),
+        (r"board_is_valid", 7, "6 piece kinds / 2 colours"),
+        (r"castle_rights_are_valid", 3, "2 colours"),
+        (r"en_passant_is_valid", 4, "<= 2 checkers accepted (+1)"),
+        (r"memcmp|library/core/src/(str|fmt|slice|char|num|iter)/", 8, "text of at most 6 bytes / arrays of at most 6 words"),
+    ]
+
+KINDS = ["pawn", "knight", "bishop", "rook", "queen", "king", "none"]
+BOARD_ASSUME = ["boards are raw symbolic fields constrained by refm::accepts (equal to the real acceptance set by the C06 lemma, "
+                "within that lemma's bound); checkers/pinned of the pre-state are the reference values (tied to the real "
+                "constructor by C03/C06 fresh_equals_ref)",
+                "table lookups get_rook_moves/get_bishop_moves/get_*_rays/get_between_rays/get_line_rays/get_knight_moves/"
+                "get_king_moves/get_pawn_attacks are replaced by formula stubs proved equal to them for every argument in C05"]
+
+
+def oracle_validation(res):
+    """Native validation of the reference model against the repository's own test positions (oracle check, not the property)."""
+    import re, time
+    t0 = time.time()
+    ok, d, err = engine.build_native("release", bins=("replay", "validate"))
+    if not ok:
+        res.inconclusive.append(("oracle-validation", "native build failed: " + err[-300:]))
+        return
+    fens = set()
+    for f in ["cozy-chess/src/board/movegen/tests.rs", "cozy-chess/src/board/mod.rs", "cozy-chess/src/util/tests.rs"]:
+        try:
+            txt = open(os.path.join("/repo", f)).read()
+        except OSError:
+            continue
+        fens |= set(re.findall(r'"([^"]+ [wb] [A-Za-z-]+ [a-h0-9-]+ [0-9]+ [0-9]+)"', txt))
+    try:
+        fens |= set(open("/repo/cozy-chess/src/board/test_data/valid.sfens").read().splitlines()[:200])
+    except OSError:
+        pass
+    r = subprocess.run([os.path.join(d, "validate"), "1"], input="\n".join(sorted(fens)), capture_output=True, text=True)
+    last = (r.stdout.strip().splitlines() or ["no output"])[-1]
+    res.extra["oracle_validation"] = {"result": last, "wall_s": round(time.time() - t0, 1),
+                                      "what": "reference model vs real code on the repository's test positions and their depth-2 trees (validates the oracle; decides nothing about the property)"}
+    if r.returncode != 0:
+        # the oracle and the real code disagree on a concrete position: a harness would find the same, so run on, but say so
+        sys.stderr.write("oracle validation disagreement:\n" + r.stdout[-1500:] + "\n")
+        res.extra["oracle_validation"]["disagreements"] = r.stdout.strip().splitlines()[:10]
+
+
+def cube_queries(prefix, kinds, cks, timeout, mem, a=16, **kw):
+    qs = []
+    for k in kinds:
+        for c in cks:
+            qs.append(Query("brd::%s_%s_c%d" % (prefix, k, c), stubbing=True, rules=board_rules(a), default_unwind=2,
+                            timeout=timeout, mem_gb=mem, **kw))
+    return qs
+
+
+# ---------------------------------------------------------------------------- C04
+def plan_c04(res, tier, seed, only):
+    res.functions = ["Board::is_legal", "Board::king_is_legal", "Board::can_castle", "Board::king_safe_on", "Board::target_squares",
+                     "Board::add_pawn_legals (as used by is_legal)", "Board::piece_on", "Board::generate_moves_for (vs_gen)"]
+    res.bounds = {"boards": "every accepted board, no piece-count bound", "moves": "all 64*64*7 move values",
+                  "cubes": "origin kind (6 kinds + 'no own piece') x checkers (0, 1, >=2): 21 cubes partition the input space",
+                  "loops": "per-loop bounds derived from the code, unwinding assertions on"}
+    res.assumptions = list(BOARD_ASSUME)
+    oracle_validation(res)
+    cap = 600 if tier == "quick" else 2700
+    qs = cube_queries("c04_vs_ref", KINDS, [0, 1, 2], cap, 8)
+    if tier == "thorough":
+        qs += cube_queries("c04_vs_gen", KINDS, [0, 1, 2], cap, 10)
+    else:
+        res.notrun.append("c04_vs_gen (is_legal vs generation without oracle): thorough tier")
+    engine.run_plan(res, filt(qs, only), workers=12)
+    return RULE
+
+
+PLANS["C04"] = plan_c04
+
+
+def native_bin(res, name):
+    ok, d, err = engine.build_native("release", bins=("replay", "validate", "dump"))
+    if not ok:
+        res.inconclusive.append((name, "native build failed: " + err[-300:]))
+        return None
+    return os.path.join(d, name)
+
+
+# ---------------------------------------------------------------------------- C11
+def plan_c11(res, tier, seed, only):
+    import time
+    res.functions = ["ZobristBoard::xor_square", "ZobristBoard::set_castle_right", "ZobristBoard::set_en_passant",
+                     "ZobristBoard::toggle_side_to_move", "ZobristBoard::hash_without_ep", "ZOBRIST (793 const-evaluated keys)"]
+    maxw = 3 if tier == "quick" else 4
+    res.bounds = {"writers": "every raw state and every argument (Kani)", "keys": "all 793 keys (768 piece, 16 castle, 8 ep, side)",
+                  "weights": "XORs of 1..%d distinct keys, complete (cube-and-conquer over low-6-bit classes)" % maxw}
+    res.assumptions = ["keys are obtained behaviourally through the writer hooks on an empty board",
+                       "castle keys that coincide for the two wings of one (colour, file) are one feature key (the property counts 2*8 castle keys); any other coincidence is a collision"]
+    if tier == "quick":
+        res.notrun.append("weight 4 (about 12.5k cubes): thorough tier")
+    qs = [H("zob", n, timeout=900, mem_gb=8) for n in ["c11_linearity", "c10_without_ep"]]
+    engine.run_plan(res, filt(qs, only), workers=3)
+    dump = native_bin(res, "dump")
+    if dump:
+        work = os.path.join(engine.WORK, "c11")
+        os.makedirs(work, exist_ok=True)
+        kp, op = os.path.join(work, "keys.json"), os.path.join(work, "out.json")
+        open(kp, "w").write(subprocess.run([dump, "keys"], capture_output=True, text=True).stdout)
+        t0 = time.time()
+        r = subprocess.run(["python3-vt", os.path.join(engine.VERIF, "lib", "zobrist.py"), kp, str(maxw), op, "16"],
+                           capture_output=True, text=True)
+        if r.returncode != 0:
+            res.inconclusive.append(("zobrist-z3", "driver failed: " + r.stderr[-300:]))
+        else:
+            d = json.load(open(op))
+            for w in d["results"]:
+                q = {"harness": "z3:weight-%d" % w["weight"], "kind": "smt", "status": "pass" if w["result"] == "unsat" else "fail",
+                     "solver_s": w.get("solver_s"), "wall_s": w.get("wall_s", w.get("solver_s")),
+                     "detail": "%d cube(s), all unsat" % w["cubes"] if w["result"] == "unsat" else str(w)}
+                if w["result"] == "unknown":
+                    q["status"] = "inconclusive"
+                    res.inconclusive.append((q["harness"], "z3 returned unknown on %d cubes" % w.get("unknown", 0)))
+                res.queries.append(q)
+            res.extra["zobrist"] = {"n_keys": d["n_keys"], "cube_bits": d["cube_bits"], "mitm_cross_check": d["mitm_cross_check"],
+                                    "cubes_per_weight": {str(w["weight"]): w["cubes"] for w in d["results"]}}
+            for c in d["collisions"]:
+                text = "XOR of %d distinct feature keys is zero: %s" % (c["weight"], ", ".join(c["features"]))
+                engine.add_native_violation(res, "zobrist-w%d" % c["weight"], {"kind": "zobrist", "indices": c["indices"],
+                                            "features": c["features"], "keys": c["keys"]}, text)
+            if d["models_not_confirmed"]:
+                res.inconclusive.append(("zobrist-z3", "solver model did not reproduce on the dumped keys"))
+            if d["mitm_cross_check"]["collisions_found"] and not d["collisions"]:
+                res.inconclusive.append(("zobrist-z3", "cross-check found a collision the solver queries missed: encoding suspect"))
+    return RULE
+
+
+PLANS["C11"] = plan_c11
+
+
+# ---------------------------------------------------------------------------- C05 (Kani part; SMT part added by e2)
+def plan_c05(res, tier, seed, only):
+    res.functions = ["get_knight_moves", "get_king_moves", "get_pawn_attacks", "get_pawn_quiets", "get_rook_rays", "get_bishop_rays",
+                     "get_between_rays", "get_line_rays", "get_rook_moves_const", "get_bishop_moves_const", "get_slider_moves",
+                     "get_rook_relevant_blockers", "get_bishop_relevant_blockers", "get_magic_index/get_rook_moves_index/"
+                     "get_bishop_moves_index", "get_rook_moves/get_bishop_moves + SLIDING_MOVES (SMT)"]
+    res.bounds = {"squares": "all 64 (pairs: all 64x64)", "occupancies": "all 2^64", "colours": "both"}
+    res.assumptions = ["the reference fills are themselves proved equal to a naive ray walk (c05_ks_vs_walk)"]
+    names = ["c05_leapers", "c05_pawn_quiets", "c05_rays_between_line", "c05_ks_vs_walk", "c05_const_rook", "c05_const_bishop",
+             "c05_relevant_blockers", "c05_magic_bridge_rook", "c05_magic_bridge_bishop"]
+    qs = [H("c05", n, timeout=1200, mem_gb=10) for n in names]
+    engine.run_plan(res, filt(qs, only), workers=9)
+    import e2
+    e2.run_c05(res, tier, seed)
+    if tier == "thorough":
+        e2.run_c05(res, tier, seed, pext=True)
+    else:
+        res.notrun.append("PEXT back end (feature pext, +bmi2): thorough tier")
+    return RULE
+
+
+PLANS["C05"] = plan_c05
+
+
+# ---------------------------------------------------------------------------- C01
+def plan_c01(res, tier, seed, only):
+    res.functions = ["Board::generate_moves_for", "Board::add_all_legals", "add_pawn_legals", "add_knight_legals", "add_slider_legals<Bishop|Rook|Queen>",
+                     "add_king_legals", "can_castle", "king_safe_on", "target_squares"]
+    res.bounds = {"boards": "every accepted board, no piece-count bound", "mask": "every single-origin mask (64 squares); the FULL mask is the union "
+                  "of origins: composition shown structurally by C16 (dispatch + abort with generators stubbed)",
+                  "queried move": "all 64*64*7 values", "cubes": "origin kind (6 + none) x checkers (0, 1, >=2)"}
+    res.assumptions = list(BOARD_ASSUME) + ["batch membership uses the enumeration model proved for PieceMoves in C17",
+                                            "both slider back ends: the stubs are proved equal to each back end's lookups in C05"]
+    oracle_validation(res)
+    cap = 900 if tier == "quick" else 2700
+    if tier == "quick":
+        # the cubes with the most intricate code: king (castling), pawn (en passant), one slider and the knight rotate with the seed
+        rot = ["knight", "bishop", "rook", "queen"]
+        pick = [rot[seed % 4]]
+        kinds = ["king", "pawn"] + pick
+        qs = cube_queries("c01_origin", kinds, [0, 1], cap, 8) + cube_queries("c01_origin", ["king"], [2], cap, 8)
+        res.notrun.append("c01_origin cubes not in {king, pawn, %s} x {0,1} and the >=2-checker cubes of non-king pieces: thorough tier (or another VERIF_SEED)" % pick[0])
+    else:
+        qs = cube_queries("c01_origin", KINDS, [0, 1, 2], cap, 8)
+    engine.run_plan(res, filt(qs, only), workers=12)
+    return RULE
+
+
+PLANS["C01"] = plan_c01
+
+
+# ---------------------------------------------------------------------------- C13 / C14
+def plan_c13(res, tier, seed, only):
+    res.functions = ["Board::same_position", "effective_ep", "Board::is_legal (pawn branch)", "ZobristBoard::board_is_equal", "hash_without_ep"]
+    res.bounds = {"boards": "every accepted board with an en-passant file (ep_effect); every pair of accepted boards (pair, thorough)",
+                  "clocks": "unconstrained on both boards"}
+    res.assumptions = list(BOARD_ASSUME) + ["hashes are modelled as an arbitrary function of the position (justified by C10/C11): equal cores get "
+                                            "equal hash-without-ep, the ep key is the behavioural key"]
+    oracle_validation(res)
+    cap = 600 if tier == "quick" else 2700
+    qs = [Query("brd::c13_ep_effect_%s" % s, stubbing=True, rules=board_rules(), default_unwind=2, timeout=cap, mem_gb=8) for s in "wb"]
+    if tier == "thorough":
+        qs.append(Query("brd::c13_pair", stubbing=True, rules=board_rules(), default_unwind=2, timeout=cap, mem_gb=12))
+    else:
+        res.notrun.append("c13_pair (two arbitrary accepted boards): thorough tier")
+    engine.run_plan(res, filt(qs, only), workers=3)
+    return RULE
+
+
+def plan_c14(res, tier, seed, only):
+    res.functions = ["Board::null_move", "ZobristBoard::toggle_side_to_move", "ZobristBoard::set_en_passant"]
+    a = 4 if tier == "quick" else 16
+    res.bounds = {"boards": "every accepted board", "slider loop": "at most %d enemy sliders on the lines of the new mover's king%s" % (
+        a, " (16 = no bound: a side has at most 16 pieces)" if a == 16 else "; more are outside this tier's claim")}
+    res.assumptions = list(BOARD_ASSUME) + ["pre-state hash is the reference hash (XOR of behavioural keys)"]
+    oracle_validation(res)
+    cap = 600 if tier == "quick" else 2700
+    qs = [Query("brd::c14_null_%s_a%d" % (s, a), stubbing=True, rules=board_rules(a), default_unwind=2, timeout=cap, mem_gb=10) for s in "wb"]
+    engine.run_plan(res, filt(qs, only), workers=2)
+    return RULE
+
+
+PLANS["C13"] = plan_c13
+PLANS["C14"] = plan_c14
+
+
+# ---------------------------------------------------------------------------- C02 / C03 / C10: the step family
+STEP_KINDS = ["pawn", "knight", "bishop", "rook", "queen", "king", "castle"]
+
+
+def step_plan(prefix, res, tier, seed, only, extra=None):
+    oracle_validation(res)
+    a = 2 if tier == "quick" else 16
+    cap = 900 if tier == "quick" else 3000
+    res.bounds = {"boards": "every accepted board, no piece-count bound", "moves": "every legal move (reference legality assumed; tied to the "
+                  "real generator/is_legal by C01/C04)", "cubes": "moved piece kind: pawn, knight, bishop, rook, queen, king step, castling",
+                  "slider loop": "at most %d own sliders on the lines of the enemy king after the move%s" % (
+                      a, " (no bound)" if a == 16 else "; positions with more are outside the quick tier's claim"),
+                  "histories": "one inductive step from an arbitrary accepted board; closure (successor accepted) is asserted by the C02 instances, "
+                               "so the statement extends to histories of any length"}
+    qs = [Query("brd::%s_step_%s_a%d" % (prefix, k, a), stubbing=True, rules=board_rules(a), default_unwind=2, timeout=cap, mem_gb=10)
+          for k in STEP_KINDS]
+    if extra:
+        qs += extra
+    engine.run_plan(res, filt(qs, only), workers=8)
+
+
+def plan_c02(res, tier, seed, only):
+    res.functions = ["Board::play_unchecked", "ZobristBoard::xor_square/set_castle_right/set_en_passant/toggle_side_to_move", "Board::piece_on"]
+    res.assumptions = list(BOARD_ASSUME)
+    step_plan("c02", res, tier, seed, only)
+    return RULE
+
+
+def plan_c03(res, tier, seed, only):
+    res.functions = ["Board::play_unchecked (checkers/pinned updates)", "Board::null_move (via C14)", "Board::calculate_checkers_and_pins (fresh, via C06)"]
+    res.assumptions = list(BOARD_ASSUME) + ["'equals what a freshly constructed board reports' is the conjunction of this step (incremental == reference) "
+                                            "and C06's fresh_equals_ref (constructor == reference)"]
+    step_plan("c03", res, tier, seed, only)
+    return RULE
+
+
+def plan_c10(res, tier, seed, only):
+    res.functions = ["Board::play_unchecked (hash updates)", "Board::hash", "Board::hash_without_ep", "ZobristBoard writers"]
+    res.assumptions = list(BOARD_ASSUME) + ["pre-state hash = XOR of behavioural feature keys (established for constructed boards by the builder "
+                                            "sequencing harness of C09 and preserved by this step and by C14's null-move step)"]
+    extra = [H("zob", n, timeout=900, mem_gb=8) for n in ["c11_linearity", "c10_without_ep"]]
+    step_plan("c10", res, tier, seed, only, extra)
+    return RULE
+
+
+PLANS["C02"] = plan_c02
+PLANS["C03"] = plan_c03
+PLANS["C10"] = plan_c10
+
+
+# ---------------------------------------------------------------------------- C06 / C09 / C08 / C12 / C15 / C16 / C20
+def c06_rules(a=4, n=4):
+    return [
+        HARNESS_CODE,
+        (r"from_board", n + 1, "pieces per (colour, kind): bounded by the harness assumption (<= %d per colour)" % n),
+        (r"add_board|BoardBuilder::build", 66, "64 squares"),
+        (r"write_piece_config|nth|advance_by|try_fold", 10, "back rank: <= 8 free squares"),
+    ] + [r for r in board_rules(a) if r is not HARNESS_CODE]
+
+
+def plan_c06(res, tier, seed, only):
+    res.functions = ["Board::board_is_valid", "Board::checkers_and_pins_are_valid", "Board::calculate_checkers_and_pins",
+                     "Board::castle_rights_are_valid", "Board::en_passant_is_valid", "halfmove/fullmove validators",
+                     "BoardBuilder::build (+ add_board/add_castle_rights/add_en_passant/add_halfmove_clock/add_fullmove_number)",
+                     "BoardBuilder::double_chess960_startpos / write_piece_config", "closure: Board::play_unchecked / null_move (via C02/C14)"]
+    a = 4 if tier == "quick" else 8
+    res.bounds = {"validators": "every raw board; slider loops bounded by <= %d sliders aligned with the king concerned (more: outside the lemma)" % a,
+                  "builder": "every builder state (64 optional pieces, side, four optional right files, optional ep square, clocks)",
+                  "start positions": "all 960 x 960 pairs (symbolic Scharnagl numbers)",
+                  "acceptance of reachable positions": "closure assertions of the C02 step harnesses and the C14 null-move harness + start positions accepted"}
+    res.assumptions = ["the build() sequencing harness replaces the private validators by stubs that answer what the reference predicates say; "
+                       "the per-validator harnesses prove the real validators answer the same",
+                       "FEN text route: only the field parsers are decided (C08); whole records are outside the claim"]
+    oracle_validation(res)
+    cap = 900 if tier == "quick" else 3000
+    mk = lambda nme, mem=8, **kw: Query("c06::" + nme, stubbing=kw.pop("stubbing", False), rules=c06_rules(a, 4), default_unwind=2, timeout=cap, mem_gb=mem, **kw)
+    qs = [mk("c06_v_board_a%d" % a), mk("c06_v_fresh_a%d" % a), mk("c06_v_castle"), mk("c06_v_ep"), mk("c06_v_clocks"),
+          mk("c06_startpos"), mk("c09_build_seq", mem=14, stubbing=True)]
+    if tier == "thorough":
+        qs += [mk("c06_v_board_a16"), mk("c06_v_fresh_a16")]
+    engine.run_plan(res, filt(qs, only), workers=7)
+    return RULE
+
+
+def plan_c09(res, tier, seed, only):
+    res.functions = ["BoardBuilder::build", "BoardBuilder::from_board", "add_board", "add_castle_rights", "add_en_passant", "add_halfmove_clock",
+                     "add_fullmove_number", "Board::parse_side_to_move/parse_castle_rights/parse_en_passant/parse_halfmove_clock/parse_fullmove_number (field level)"]
+    a = 4 if tier == "quick" else 8
+    n = 4 if tier == "quick" else 16
+    res.bounds = {"builder states": "all (64 optional pieces, side, rights, ep square, clocks)", "from_board": "accepted boards with <= %d pieces per colour" % n,
+                  "parser side": "field parsers on bounded strings only (C08); record-level equality from_fen(text) == build(state) is outside the claim"}
+    res.assumptions = ["validators stubbed by the reference predicates in the sequencing harness (discharged by C06's per-validator harnesses)"]
+    oracle_validation(res)
+    cap = 900 if tier == "quick" else 3000
+    qs = [Query("c06::c09_build_seq", stubbing=True, rules=c06_rules(a, n), default_unwind=2, timeout=cap, mem_gb=14),
+          Query("c06::c09_from_board_n%d" % n, stubbing=True, rules=c06_rules(a, n), default_unwind=2, timeout=cap, mem_gb=10),
+          H("c08", "c08_castle_shredder", timeout=cap, mem_gb=8), H("c08", "c08_ep", timeout=cap, mem_gb=8), H("c08", "c08_side", timeout=cap, mem_gb=8)]
+    if tier == "thorough":
+        qs.append(Query("c06::c09_build_seq_hash", stubbing=True, rules=c06_rules(a, n), default_unwind=2, timeout=cap, mem_gb=20))
+    else:
+        res.notrun.append("c09_build_seq_hash (hash of the built board == XOR of feature keys): thorough tier")
+    engine.run_plan(res, filt(qs, only), workers=5)
+    return RULE
+
+
+def plan_c08(res, tier, seed, only):
+    res.functions = ["Board::parse_side_to_move", "Board::parse_castle_rights", "Board::parse_en_passant", "Board::parse_halfmove_clock",
+                     "Board::parse_fullmove_number", "Board::parse_board (short strings only)"]
+    res.bounds = {"strings": "every valid UTF-8 string of <= 3 bytes (side, ep), <= 5 (castling), <= 6 (clocks); placement field: <= 3 (quick) / <= 5 (thorough) "
+                             "bytes, which can never denote eight ranks", "not decided": "record splitting (split(' '), field count, error mapping) and faithful "
+                             "decoding of a full placement field; whole FEN records (measured out of reach, DESIGN.md C07/C08)"}
+    res.assumptions = ["field parsers are reached through the add-only hook Board::verif_parse_field"]
+    cap = 900 if tier == "quick" else 3000
+    names = ["c08_side", "c08_castle_fen", "c08_castle_shredder", "c08_ep", "c08_halfmove", "c08_fullmove"]
+    if tier == "thorough":
+        names.append("c08_placement_3")
+    else:
+        res.notrun.append("c08_placement_3 (placement field on <= 3-byte strings): attempted in the thorough tier only; did not finish in 15 min when measured")
+    qs = [H("c08", nme, timeout=cap, mem_gb=10) for nme in names]
+    engine.run_plan(res, filt(qs, only), workers=8)
+    return RULE
+
+
+def plan_c12(res, tier, seed, only):
+    res.functions = ["Board::status", "Board::generate_moves (abort contract, via the per-origin abort harnesses)"]
+    res.bounds = {"status glue": "every board value, every answer of generate_moves, clock 0..=100",
+                  "has-a-legal-move": "generate_moves(|_| true) returns true iff some batch is delivered: dispatch (c16_dispatch, every board) + "
+                                      "per-origin abort harnesses (every accepted board); batches are exactly the legal moves by C01"}
+    res.assumptions = list(BOARD_ASSUME)
+    cap = 600 if tier == "quick" else 2700
+    qs = [Query("glue::c12_status", stubbing=True, timeout=cap, mem_gb=6),
+          Query("c16::c16_dispatch", stubbing=True, timeout=cap, mem_gb=8)]
+    kinds = ["king", "pawn"] if tier == "quick" else KINDS[:6]
+    qs += cube_queries("c16_abort", kinds, [0, 1] if tier == "quick" else [0, 1, 2], cap, 8)
+    engine.run_plan(res, filt(qs, only), workers=10)
+    return RULE
+
+
+def plan_c15(res, tier, seed, only):
+    res.functions = ["Board::try_play", "Board::play", "Board::is_legal (via C04 cubes)", "Board::play_unchecked (delegated, C02)"]
+    res.bounds = {"boards": "every accepted board", "moves": "all 64*64*7 values",
+                  "composition": "wrapper logic with is_legal/play_unchecked stubbed (the stub answers the reference legality) + is_legal == reference legality (C04 cubes)"}
+    res.assumptions = list(BOARD_ASSUME)
+    oracle_validation(res)
+    cap = 600 if tier == "quick" else 2700
+    qs = [Query("glue::c15_try_play", stubbing=True, timeout=cap, mem_gb=8), Query("glue::c15_play_legal", stubbing=True, timeout=cap, mem_gb=8),
+          Query("glue::c15_play_illegal", stubbing=True, timeout=cap, mem_gb=8, should_panic=True)]
+    if tier == "quick":
+        rot = KINDS[(seed % 5)]
+        qs += cube_queries("c04_vs_ref", ["king", rot], [0, 1, 2], cap, 8) + cube_queries("c04_vs_ref", ["pawn", "none"], [2, 0], cap, 8)
+        res.notrun.append("remaining c04_vs_ref cubes: thorough tier / C04's own check")
+    else:
+        qs += cube_queries("c04_vs_ref", KINDS, [0, 1, 2], cap, 8)
+    engine.run_plan(res, filt(qs, only), workers=12)
+    return RULE
+
+
+def plan_c16(res, tier, seed, only):
+    res.functions = ["Board::generate_moves_for", "Board::generate_moves", "add_all_legals (dispatch, abort_if)", "per-piece generators (abort propagation, single origin)"]
+    res.bounds = {"dispatch": "every board value, every mask, every abort point, generators replaced by arbitrary batch emitters (<= 2 batches each)",
+                  "generators": "every accepted board, every single-origin mask: exactly the legal moves of that origin (C01 harness), abort at call 0/1",
+                  "batches": "<= 2 per origin and 2 only for a pawn attacking the en-passant square (<= 2 such pawns): at most 16 + 2 = 18 batches",
+                  "not decided": "multi-origin masks inside one generator loop beyond the single-origin case are covered only by the loop structure "
+                                 "(each iteration handles one origin independently); a symbolic-mask harness on <= N pieces is attempted in the thorough tier"}
+    res.assumptions = list(BOARD_ASSUME)
+    oracle_validation(res)
+    cap = 900 if tier == "quick" else 2700
+    qs = [Query("c16::c16_dispatch", stubbing=True, timeout=cap, mem_gb=8), Query("c16::c16_full_mask", stubbing=True, timeout=cap, mem_gb=8)]
+    if tier == "quick":
+        rot = ["knight", "bishop", "rook", "queen"][seed % 4]
+        qs += cube_queries("c16_abort", ["king", "pawn", rot], [0, 1], cap, 8)
+        qs += cube_queries("c01_origin", ["pawn", rot], [0], cap, 8)
+    else:
+        qs += cube_queries("c16_abort", KINDS[:6], [0, 1, 2], cap, 8) + cube_queries("c01_origin", KINDS, [0, 1, 2], cap, 8)
+    engine.run_plan(res, filt(qs, only), workers=12)
+    return RULE
+
+
+def plan_c20(res, tier, seed, only):
+    res.functions = ["util::display_uci_move", "util::parse_uci_move", "Move::from_str / Display (via C19)"]
+    res.bounds = {"UCI pair": "every accepted board whose rights are orthodox (king e-file, rooks a/h), every legal move; reader on every string <= 6 bytes",
+                  "SAN": "NOT decided in this tier (full-mask generation + formatting per query; see DESIGN.md C20)"}
+    res.assumptions = list(BOARD_ASSUME)
+    oracle_validation(res)
+    cap = 900 if tier == "quick" else 2700
+    qs = [Query("c20::" + nme, stubbing=True, rules=board_rules(), default_unwind=2, timeout=cap, mem_gb=10)
+          for nme in ["c20_uci_roundtrip_plain", "c20_uci_roundtrip_castle", "c20_uci_reader_total"]]
+    engine.run_plan(res, filt(qs, only), workers=3)
+    return RULE
+
+
+PLANS.update({"C06": plan_c06, "C09": plan_c09, "C08": plan_c08, "C12": plan_c12, "C15": plan_c15, "C16": plan_c16, "C20": plan_c20})
